@@ -2,6 +2,7 @@
 from __future__ import annotations
 
 import ast
+import inspect
 import sys
 
 from functools import partial
@@ -743,7 +744,8 @@ class ModuleVistor(NodeVisitor):
         if obj is not None:
             # A lone surrogate cannot be encoded when the page is written: show it escaped,
             # like extract_docstring() does for docstring literals.
-            obj.docstring = docstring.encode('utf-8', 'backslashreplace').decode('utf-8')
+            # Cleaned like a docstring literal, see astutils.extract_docstring().
+            obj.docstring = inspect.cleandoc(docstring).encode('utf-8', 'backslashreplace').decode('utf-8')
             # TODO: It might be better to not perform docstring parsing until
             #       we have the final docstrings for all objects.
             obj.parsed_docstring = None
